@@ -304,6 +304,8 @@ Example C16_dicts_nonvacuous :
   = Some 7%nat /\
   alookup "K" (match w_nprops (shift_wgraph (wgraph_final ex_tm false false)) with Some ps => ps | None => [] end)
   = Some (mkprop (PFixed (mkarr DI64 [7%nat] [3; 0; 0; 4; 0; -7; 0])) (Some (mkarr DBool [7%nat] [0; 1; 1; 0; 1; 0; 1]))).
+Proof. vm_compute. repeat split. Qed.
+
 (* ---- appended (fx16): the premises decided fast; occupied target with overwrite=True ---- *)
 From Geff Require CrashLemmas OverwriteLemmas ConvOverwrite TrackMateFast TrackMateOverwrite.
 
